@@ -108,6 +108,11 @@ def int_section(b, tier):
         if signed:
             mk([Vld("greater_or_equal", "-MAX", -60), Vld("less_or_equal", "25", 25)], sup=[f"pub const MAX: {ty} = 60;"])
             mk([Vld("less_or_equal", "-MIN", 60), Vld("greater_or_equal", "-25", -25)], sup=[f"pub const MIN: {ty} = -60;"])
+        # Default derived next to Arbitrary (a generator that centres itself on the default must still reach both ends)
+        for (l_, h_, dv) in ((1, 20, 7), (0, 255, 255) if not signed else (-100, 100, 0), (3, 9, 3), (3, 9, 9)):
+            d = mk([Vld("greater_or_equal", str(l_), l_), Vld("less_or_equal", str(h_), h_)])
+            d.default = (str(dv), dv)
+            d.derives = list(ARB) + ["Default"]
         # single-sided bounds at the extremes (wide ranges: C09 only unless the type is small)
         t14 = ("C09", "C14") if bits <= 16 else ("C09",)
         mk([Vld("greater_or_equal", f"{ty}::MIN", lo)], tags=t14)
@@ -208,6 +213,16 @@ def float_section(b, tier):
         mk([("greater", "-MAX", Fraction(-30)), ("less", "MAX", Fraction(30))], finite_at=0, sup=[f"pub const MAX: {ty} = 30.0;"])
         mk([("greater_or_equal", "LOWER", Fraction(2)), ("less_or_equal", "UPPER", Fraction(30))], sup=[f"const LOWER: {ty} = 2.0; const UPPER: {ty} = 30.0;"])
         mk([("greater_or_equal", "RANGE", Fraction(2)), ("less", "X", Fraction(30))], finite_at=2, sup=[f"const RANGE: {ty} = 2.0; const X: {ty} = 30.0;"])
+        # user constants named like a generator's own helper constants, inside exclusive-bound expressions
+        for nm in ("DELTA", "CORRECTION", "EPS", "STEP", "OFFSET", "SCALE"):
+            mk([("less", "1.0 - %s" % nm, Fraction(3, 4))], finite_at=[None, 0][len(nm) % 2], sup=[f"pub const {nm}: {ty} = 0.25;"])
+            mk([("greater", "%s - 1.0" % nm, Fraction(-3, 4)), ("less", "1.0 - %s" % nm, Fraction(3, 4))], sup=[f"pub const {nm}: {ty} = 0.25;"])
+        # subnormal exclusive bounds (a correction step proportional to the bound underflows there)
+        subn = ("1.0e-40", Fraction(1, 10 ** 40)) if ty == "f32" else ("1.0e-310", Fraction(1, 10 ** 310))
+        mk([("greater", subn[0], subn[1])])
+        mk([("less", "-" + subn[0], -subn[1])], finite_at=0)
+        mk([("greater", subn[0], subn[1]), ("less", "1.0", Fraction(1))])
+        mk([("greater", "-1.0", Fraction(-1)), ("less", "-" + subn[0], -subn[1])], finite_at=2)
         # const-valued bounds
         mk([("greater", "LO", Fraction(-7)), ("less", "HI", Fraction(7))], sup=[f"const LO: {ty} = -7.0; const HI: {ty} = 7.0;"])
         mk([("greater_or_equal", "LO", Fraction(1, 4))], finite_at=1, sup=[f"const LO: {ty} = 0.25;"])
